@@ -41,6 +41,9 @@ def gen(rng, tier, i):
     return interop.gen_interop_plan(rng)
 
 
+from .. import gen as _gen  # noqa
+gen = _gen.with_lines(gen, ['_write_loop', 'send', 'poll', 'writer', 'close', 'disconnect', '_websocket_handler', '_connect_websocket'])
+
 def run(plan, sched_values=None, sched_seed=0):
     h = interop.run_interop_scenario(plan, sched_values, sched_seed)
     v = interop.check_interop(h)
@@ -68,7 +71,7 @@ def run(plan, sched_values=None, sched_seed=0):
                                        pr.get('msg_s2c') or
                                        plan.get('meta', {}).get('t_end')))
     return {'violations': v, 'probes': pr,
-            'faults': dict(h.world.faults), 'sim_s': h.final['now'],
+            'faults': dict(h.world.faults, **h.k.line_faults()), 'sim_s': h.final['now'],
             'digest': h.digest, 'sched_digest': h.sched_digest,
             'states': ['%s/%s:%s' % (h.cw.kind, h.world.impl, e['ev'])
                        for e in h.cw.app.events][:20],
